@@ -210,7 +210,7 @@ impl CoreInner {
 			active_memtable,
 			immutable_memtables,
 			level_manifest,
-			snapshot_tracker: SnapshotTracker::new(),
+			snapshot_tracker: SnapshotTracker::with_visible_seq_num(Arc::clone(&visible_seq_num)),
 			active_txn_tracker: Arc::new(crate::tracker::ActiveTxnTracker::new()),
 			wal_inflight: parking_lot::Mutex::new(std::collections::BTreeMap::new()),
 			vlog,
